@@ -80,6 +80,8 @@ func c18Instant(m *c10Mapping, v interface{}) time.Time {
 	return m.at(num(o["k"]), num(o["d"]))
 }
 
+var c18LMT = time.FixedZone("LMT", -(7*3600 + 52*60 + 58))
+
 func init() {
 	register("c18", &Suite{Run: func(c M) M {
 		m := c10GetMap(false)
@@ -133,11 +135,16 @@ func init() {
 		}
 		o["size0"] = c18Size(sel.Condition)
 		steps := make([]interface{}, 0, 4)
-		var prevCopy *influxql.SelectStatement
+		var prevCopy, prevTwin *influxql.SelectStatement
 		var prevStep M
 		for _, w := range list(c["wins"]) {
 			win := obj(w)
 			start, end := c18Instant(m, win["s"]), c18Instant(m, win["e"])
+			// the same instants, carried by time.Time values of another Location on every second call (a zone whose offset
+			// has a seconds part: local mean time, as the tz database has it for dates before the railways)
+			if len(steps)%2 == 1 {
+				start, end = start.In(c18LMT), end.In(c18LMT)
+			}
 			st := M{}
 			var serr error
 			if p := guard(func() { serr = sel.SetTimeRange(start, end) }); p != "" {
@@ -178,6 +185,25 @@ func init() {
 				if prevCopy != nil && prevStep != nil && prevCopy.Condition != nil {
 					prevStep["copy_later"] = prevCopy.Condition.String()
 				}
+				if prevTwin != nil && prevStep != nil && prevTwin.Condition != nil {
+					prevStep["twin_later"] = prevTwin.Condition.String()
+				}
+				// a second statement parsed from the same text that is given the SAME window: it keeps it when the first
+				// one gets its next window
+				prevTwin = nil
+				guard(func() {
+					if st2, err := influxql.ParseStatement(head + where + tzClause); err == nil {
+						if tw, ok := st2.(*influxql.SelectStatement); ok {
+							if talias {
+								tw.RewriteTimeFields()
+							}
+							if tw.SetTimeRange(start, end) == nil && tw.Condition != nil {
+								st["twin_cond"] = tw.Condition.String()
+								prevTwin = tw
+							}
+						}
+					}
+				})
 				var cp, cp2 *influxql.SelectStatement
 				if p := guard(func() {
 					cp, cp2 = sel.Clone(), sel.Clone()
